@@ -35,6 +35,18 @@ def c03_struct(tier="quick", seed=0):
                 out.append(ob(f"C03.struct.dunder.{mod.split('.')[-1]}.L{n.lineno}", False, "K3", f"use of {ast.unparse(n)[:60]}"))
     out.append(ob("C03.struct.inventory", total > 0, "K3", f"{total} reflective calls inspected"))
     # _get_property / _set_property / _delete_property: key_str flows only into dictionary methods, comparisons and the fixed tables
+    # The sinks a key may reach: the own-property methods of the value classes (taken from the real source of
+    # microjs.values; each is itself checked below to use the key only as a dictionary key), conversions, the
+    # fixed method tables of the VM and error constructors.
+    value_methods = {}
+    vals = S.module("microjs.values")
+    for cls in [n for n in vals.body if isinstance(n, ast.ClassDef)]:
+        for m in cls.body:
+            if isinstance(m, ast.FunctionDef):
+                value_methods.setdefault(m.name, []).append((cls.name, m))
+    conversions = {"int", "float", "to_string", "str", "isinstance", "len", "_is_array_index", "JSTypeError", "JSRangeError"}
+    tables = {"_make_array_method", "_make_string_method", "_make_number_method", "_make_typed_array_method", "_make_regexp_method",
+              "_make_function_method", "_make_callable_method", "_make_object_method", "_function_has_own"}
     for fname in ("VM._get_property", "VM._set_property", "VM._delete_property"):
         f = S.fn("microjs.vm", fname)
         bad = []
@@ -42,12 +54,26 @@ def c03_struct(tier="quick", seed=0):
             if isinstance(n, ast.Call):
                 fn_name = n.func.attr if isinstance(n.func, ast.Attribute) else getattr(n.func, "id", "")
                 uses_key = any(isinstance(a, ast.Name) and a.id in ("key_str", "key") for a in n.args)
-                if uses_key and fn_name not in ("get", "set", "has", "delete", "get_getter", "get_setter", "int", "float", "to_string", "str", "isinstance",
-                                                "_make_array_method", "_make_string_method", "_make_number_method", "_make_typed_array_method",
-                                                "_make_regexp_method", "_make_function_method", "_make_callable_method", "_make_object_method",
-                                                "JSTypeError", "get_index", "set_index"):
+                if uses_key and fn_name not in conversions and fn_name not in tables and fn_name not in value_methods \
+                        and fn_name not in ("get", "pop", "setdefault"):
                     bad.append(f"{fn_name}({ast.unparse(n)[:50]})")
         out.append(ob(f"C03.struct.key-flow.{fname.split('.')[-1]}", not bad, "K3", f"script-controlled key reaches: {bad or 'only property dictionaries, conversions and fixed method tables'}"))
+    # inside the value classes a parameter named `key` is used as a dictionary key / compared / converted only
+    bad = []
+    nchecked = 0
+    for name, defs in value_methods.items():
+        for cname, m in defs:
+            if "key" not in [a.arg for a in m.args.args]:
+                continue
+            nchecked += 1
+            for n in ast.walk(m):
+                if isinstance(n, ast.Call):
+                    fn_name = n.func.attr if isinstance(n.func, ast.Attribute) else getattr(n.func, "id", "")
+                    uses_key = any(isinstance(a, ast.Name) and a.id == "key" for a in n.args)
+                    if uses_key and fn_name not in conversions and fn_name not in value_methods and fn_name not in ("get", "pop", "setdefault", "discard", "add"):
+                        bad.append(f"{cname}.{name}: {ast.unparse(n)[:50]}")
+    out.append(ob("C03.struct.key-flow.value-classes", not bad and nchecked > 0, "K3",
+                  f"{nchecked} methods of microjs.values take a key; it reaches: {bad or 'dictionary operations, comparisons and conversions only'}"))
     # the _make_*_method factories select closures from a literal dict with a constant fallback
     for fac in ("_make_array_method", "_make_string_method", "_make_number_method", "_make_typed_array_method", "_make_regexp_method",
                 "_make_function_method", "_make_callable_method", "_make_object_method"):
